@@ -1,6 +1,7 @@
 import Csproto.Props.C03
 import Csproto.Bridge.Facts
 import Csproto.Bridge.WireFuncs
+import Csproto.Bridge.WireFuncs2
 /- axiom audit for C03 -/
 open Csproto
 #print axioms C03.step_safe
@@ -23,3 +24,8 @@ open Csproto
 #print axioms Csproto.Bridge.WireFuncs.DecodeFixed64_ok
 #print axioms Csproto.Bridge.WireFuncs.DecodeFixed64_short
 #print axioms Csproto.Bridge.WireFuncs.translated_varint_roundtrip
+
+-- second batch of TRANSLATED primitives (functions that call other translated functions): Bridge/WireFuncs2.lean
+#print axioms Csproto.Bridge.WireFuncs.DecodeVarint_returns
+#print axioms Csproto.Bridge.WireFuncs.DecodeZigZag32_eq
+#print axioms Csproto.Bridge.WireFuncs.DecodeZigZag64_eq
